@@ -330,7 +330,7 @@ Proof.
   rewrite E2, E1. reflexivity.
 Qed.
 
-(* the code as found: an IA_NA pool's VRF leaks onto the equally named PD pool *)
+(* before 85029df: an IA_NA pool's VRF leaked onto the equally named PD pool *)
 Definition ex_collide : list rprofile :=
   [ {| rf_name := 1; rf_fam := FNA;
        rf_pools := [ {| rp_name := 1; rp_prio := 0; rp_vrf := 7;
@@ -800,4 +800,71 @@ Lemma reachable_vrf pfs ks st evs f k :
   reg_run_from Repaired (reg_init Repaired pfs) ks = Some (st, evs) -> vrf_of Repaired st f k = cfg_vrf f k pfs.
 Proof.
   intros H. rewrite <- reg_init_vrf. unfold vrf_of. rewrite (vrf_run _ _ _ _ _ H). reflexivity.
+Qed.
+
+(* ---------------------------------------------------------------- ResolveV4 stakes what it offers *)
+(* Whatever ResolveV4 returns is, after the call, leased to the calling session in an allocator of the
+   registry - by the allocation it just made or by the reservation it just made - unless no IPv4
+   allocator contains the address (an unmanaged, e.g. AAA-assigned, address).  There is no third way:
+   in particular nothing a context remembers (AllocatedPool) substitutes for the reservation. *)
+Lemma resolve4_staked v st pf ov vrf s have obs wobs st' a pool :
+  resolve4 v st pf ov vrf s have obs wobs = Some (st', R4 a pool) ->
+  (exists k ac ps' a', (a' = a \/ a' = unmap a) /\
+      assoc_find key_eqb k (r_allocs st' F4) = Some (ac, ps') /\ lm_lookup a' (leases ps') = Some s) \/
+  (have = Some a /\ st' = st /\
+   forall e, In e (r_allocs st F4) -> acontains v (fst (snd e)) (RA (Some a)) = false).
+Proof.
+  unfold resolve4. intros H. destruct have as [b|].
+  - (* reservation of the address the context carries *)
+    destruct (reg_step v st (RReserve F4 (RA (Some b)) s wobs)) as [[st1 o]|] eqn:E; [|discriminate].
+    destruct o; inversion H; subst; clear H.
+    cbn [reg_step] in E. unfold walk in E. destruct wobs as [k|].
+    + destruct (assoc_find key_eqb k (r_allocs st F4)) as [[ac ps]|] eqn:A; [|discriminate].
+      destruct (acontains v ac (RA (Some a))) eqn:C; [|discriminate].
+      destruct (on_pool v st F4 k (mk_reserve v (RA (Some a)) s)) as [[st2 o2]|] eqn:OP; [|discriminate].
+      destruct (on_pool_ledger _ _ _ _ _ _ _ OP) as [ac' [ps0 [ps' [pc [A0 [MK [A1 L]]]]]]].
+      rewrite A in A0. inversion A0; subst ac' ps0.
+      destruct ac as [c|c]; [|discriminate C].
+      unfold mk_reserve, akey, norm in MK. inversion MK; subst pc.
+      injection E as Est Eo. subst st2. left. exists k, (APool c), ps', (unmap a).
+      split; [right; reflexivity|]. split; [exact A1|].
+      destruct o2; try discriminate Eo. rewrite L. cbn [ledger_step].
+      rewrite lm_lookup_insert, addr_eqb_refl. reflexivity.
+    + destruct (existsb _ _) eqn:X; [discriminate|]. inversion E; subst. right.
+      split; [reflexivity|]. split; [reflexivity|]. intros e He.
+      destruct (acontains v (fst (snd e)) (RA (Some a))) eqn:C; [|reflexivity].
+      assert (existsb (fun e0 => acontains v (fst (snd e0)) (RA (Some a))) (r_allocs st' F4) = true)
+        by (apply existsb_exists; exists e; auto). congruence.
+  - (* allocation *)
+    destruct (reg_step v st (RAlloc F4 pf ov vrf s obs)) as [[st1 o]|] eqn:E; [|discriminate].
+    destruct o as [k g| | | | | |]; try discriminate. destruct g as [a0|]; [|discriminate].
+    inversion H; subst; clear H.
+    cbn [reg_step] in E.
+    destruct (alloc_target v st F4 pf ov vrf) as [t|]; destruct obs as [[k' o']|]; try discriminate.
+    destruct (key_eqb t k'); [|discriminate].
+    destruct (on_pool v st F4 t (mk_alloc v s o')) as [[st2 o2]|] eqn:OP; [|discriminate].
+    inversion E; subst; clear E.
+    unfold on_pool in OP.
+    destruct (assoc_find key_eqb k (r_allocs st F4)) as [[ac ps]|] eqn:A; [|discriminate].
+    unfold mk_alloc in OP. destruct ac as [c|c]; [|discriminate OP].
+    cbn [aobs_key] in OP. cbn [pool_step] in OP.
+    destruct (mem_addr a (free ps)); [|discriminate]. inversion OP; subst; clear OP.
+    left. exists k, (APool c), {| free := remove_first a (free ps); leases := lm_insert a s (leases ps); asc := asc ps |}, a.
+    split; [left; reflexivity|]. split.
+    + try rewrite allocs_set. cbn [rfam_eqb r_allocs set_allocs r_a4]. apply assoc_find_set_same. intros x. apply key_eqb_eq. reflexivity.
+    + cbn [leases]. rewrite lm_lookup_insert, addr_eqb_refl. reflexivity.
+Qed.
+
+Lemma resolve4_ctx_staked v st s cx obs wobs st' cx' a pool :
+  resolve4_ctx v st s cx obs wobs = Some (st', cx', R4 a pool) ->
+  (exists k ac ps' a', (a' = a \/ a' = unmap a) /\
+      assoc_find key_eqb k (r_allocs st' F4) = Some (ac, ps') /\ lm_lookup a' (leases ps') = Some s) \/
+  (c4_addr cx = Some a /\ st' = st /\
+   forall e, In e (r_allocs st F4) -> acontains v (fst (snd e)) (RA (Some a)) = false).
+Proof.
+  unfold resolve4_ctx. intros H.
+  destruct (resolve4 v st (c4_pf cx) (c4_ov cx) (c4_vrf cx) s (c4_addr cx) obs wobs) as [[st1 r]|] eqn:E; [|discriminate].
+  assert (st1 = st' /\ r = R4 a pool) as [-> ->].
+  { destruct r as [|a0 [k|]]; inversion H; subst; auto. }
+  eapply resolve4_staked; eauto.
 Qed.
